@@ -185,6 +185,7 @@ func (ds *Dataset) CompleteFullSync(ctx context.Context) error {
 		if ctx.Err() != nil {
 			return ctx.Err()
 		}
+		verifhook.Point(ds.store.database, "CompleteFullSync.scanEntity")
 		if !e.IsDeleted {
 			_, ok := ds.fullSyncSeen[e.InternalID]
 			if !ok {
